@@ -6,6 +6,7 @@ import (
 	"go/token"
 	"go/types"
 	"math"
+	"strings"
 
 	"golang.org/x/tools/go/ssa"
 )
@@ -32,11 +33,16 @@ type cv struct {
 	row   *Val
 	field string
 	tup   []cv
+	j     int64 // second coordinate of a point ('P')
+	box   *cv   // content of a captured variable ('v')
 }
 
 type folder struct {
-	p     *Prog
-	steps int
+	p        *Prog
+	steps    int
+	maxSteps int
+	free     map[*ssa.FreeVar]cv
+	sent     [][2]int64 // points sent on a channel, in order
 }
 
 func (fo *folder) call(fn *ssa.Function, args []cv, depth int) (cv, error) {
@@ -48,6 +54,15 @@ func (fo *folder) call(fn *ssa.Function, args []cv, depth int) (cv, error) {
 		if i < len(args) {
 			env[p] = args[i]
 		}
+	}
+	for _, fv := range fn.FreeVars {
+		if x, ok := fo.free[fv]; ok {
+			env[fv] = x
+		}
+	}
+	limit := foldSteps
+	if fo.maxSteps > 0 {
+		limit = fo.maxSteps
 	}
 	get := func(v ssa.Value) (cv, error) {
 		if c, ok := v.(*ssa.Const); ok {
@@ -101,8 +116,8 @@ func (fo *folder) call(fn *ssa.Function, args []cv, depth int) (cv, error) {
 		}
 		for _, ins := range blk.Instrs {
 			fo.steps++
-			if fo.steps > foldSteps {
-				return cv{}, fmt.Errorf("more than %d folding steps", foldSteps)
+			if fo.steps > limit {
+				return cv{}, fmt.Errorf("more than %d folding steps: would not terminate within the bound", limit)
 			}
 			switch x := ins.(type) {
 			case *ssa.Phi:
@@ -123,6 +138,8 @@ func (fo *folder) call(fn *ssa.Function, args []cv, depth int) (cv, error) {
 					return cv{}, err
 				}
 				switch {
+				case x.Op == token.MUL && a.kind == 'v':
+					env[x] = *a.box
 				case x.Op == token.MUL && a.kind == 'a':
 					fv := a.row.Field(a.field)
 					if fv == nil || (fv.Kind != VInt && fv.Kind != VBool) {
@@ -259,6 +276,19 @@ func (fo *folder) call(fn *ssa.Function, args []cv, depth int) (cv, error) {
 					return cv{}, fmt.Errorf("store not folded")
 				}
 				(*a.sl)[a.lo] = v.i
+			case *ssa.Send:
+				ch, err := get(x.Chan)
+				if err != nil {
+					return cv{}, err
+				}
+				v, err := get(x.X)
+				if err != nil {
+					return cv{}, err
+				}
+				if ch.kind != 'c' || v.kind != 'P' {
+					return cv{}, fmt.Errorf("send not folded")
+				}
+				fo.sent = append(fo.sent, [2]int64{v.i, v.j})
 			case *ssa.Extract:
 				t, err := get(x.Tuple)
 				if err != nil {
@@ -279,6 +309,7 @@ func (fo *folder) call(fn *ssa.Function, args []cv, depth int) (cv, error) {
 				}
 				if b, ok := x.Common().Value.(*ssa.Builtin); ok {
 					switch {
+					case b.Name() == "close" && len(as) == 1 && as[0].kind == 'c':
 					case (b.Name() == "len" || b.Name() == "cap") && len(as) == 1 && as[0].kind == 's':
 						env[x] = cv{kind: 'i', i: int64(as[0].n)}
 					case (b.Name() == "min" || b.Name() == "max") && len(as) == 2 && as[0].kind == 'i' && as[1].kind == 'i':
@@ -311,6 +342,12 @@ func (fo *folder) call(fn *ssa.Function, args []cv, depth int) (cv, error) {
 					err = f1(math.Round)
 				case "math.Trunc":
 					err = f1(math.Trunc)
+				case "image.Pt":
+					if len(as) != 2 || as[0].kind != 'i' || as[1].kind != 'i' {
+						err = fmt.Errorf("image.Pt of non-constants")
+					} else {
+						env[x] = cv{kind: 'P', i: as[0].i, j: as[1].i}
+					}
 				case "math.Modf":
 					if len(as) != 1 || as[0].kind != 'f' {
 						err = fmt.Errorf("math.Modf of a non-constant")
@@ -347,6 +384,9 @@ func (fo *folder) call(fn *ssa.Function, args []cv, depth int) (cv, error) {
 			case *ssa.Jump:
 				next = blk.Succs[0]
 			case *ssa.Return:
+				if len(x.Results) == 0 {
+					return cv{}, nil
+				}
 				if len(x.Results) == 1 {
 					return get(x.Results[0])
 				}
@@ -862,4 +902,144 @@ func init() {
 	register("C04", ruleSmallHelpers13)
 	register("C05", ruleC128Membership)
 	register("C02", ruleDMOccupied)
+}
+
+// Q20: the order in which the data modules of a QR symbol are visited.
+func ruleQRZigzag(c *Ctx) {
+	const R = "Q20-QR-ZIGZAG"
+	c.Doc(R, "qr.iterateModules: the producer of module positions, folded (E8) for the dimension 17+4v of every version v = 1..40, sends exactly the ISO 18004 7.7.3 placement order - two-module-wide columns from the right edge, alternately upwards and downwards, right module before left, the vertical timing column 6 skipped - and then ends")
+	c.Floor(R, 1)
+	fn := c.theFunc(R, "qr.iterateModules")
+	if fn == nil {
+		return
+	}
+	var prod *ssa.Function
+	for _, af := range fn.AnonFuncs {
+		sends, recvs := 0, 0
+		eachInstr(af, func(b *ssa.BasicBlock, ins ssa.Instruction) {
+			switch x := ins.(type) {
+			case *ssa.Send:
+				sends++
+			case *ssa.UnOp:
+				if x.Op == token.ARROW {
+					recvs++
+				}
+			case *ssa.Next, *ssa.Select:
+				recvs++
+			}
+		})
+		if sends > 0 && recvs == 0 {
+			prod = af
+		}
+	}
+	notJudged := func(why string) {
+		c.Check(R, "qr.iterateModules/order", fn.Pos(), true, "the ISO placement order, or a construction this folding does not follow (then not judged here)", "not judged: "+why)
+	}
+	if prod == nil {
+		notJudged("no closure that only sends")
+		return
+	}
+	for v := int64(1); v <= 40; v++ {
+		dim := 17 + 4*v
+		fo := &folder{p: c.P, maxSteps: 3000000, free: map[*ssa.FreeVar]cv{}}
+		okFree := true
+		for _, fv := range prod.FreeVars {
+			pt, ok := fv.Type().Underlying().(*types.Pointer)
+			if !ok {
+				okFree = false
+				continue
+			}
+			switch et := pt.Elem().Underlying().(type) {
+			case *types.Chan:
+				fo.free[fv] = cv{kind: 'v', box: &cv{kind: 'c'}}
+			case *types.Pointer:
+				if st, ok := et.Elem().Underlying().(*types.Struct); ok {
+					row := &Val{Kind: VStruct, Fields: map[string]*Val{}}
+					for i := 0; i < st.NumFields(); i++ {
+						if st.Field(i).Name() == "dimension" {
+							row.Fields["dimension"] = &Val{Kind: VInt, I: dim}
+						}
+					}
+					fo.free[fv] = cv{kind: 'v', box: &cv{kind: 'r', row: row}}
+				} else {
+					okFree = false
+				}
+			case *types.Basic:
+				if et.Info()&types.IsInteger != 0 {
+					fo.free[fv] = cv{kind: 'v', box: &cv{kind: 'i', i: dim}} // the dimension captured as a number
+				} else {
+					okFree = false
+				}
+			default:
+				okFree = false
+			}
+		}
+		if !okFree {
+			notJudged("captured variables other than the symbol, its dimension and the channel")
+			return
+		}
+		_, err := fo.call(prod, nil, 0)
+		if err != nil {
+			if strings.Contains(err.Error(), "would") {
+				c.Check(R, fmt.Sprintf("qr.iterateModules/order/v%d", v), prod.Pos(), false, "the ISO placement order, then the end", err.Error())
+				continue
+			}
+			notJudged(err.Error())
+			return
+		}
+		// reference order
+		var want [][2]int64
+		up := true
+		for x := dim - 1; x > 0; x -= 2 {
+			if x == 6 {
+				x--
+			}
+			for i := int64(0); i < dim; i++ {
+				y := i
+				if up {
+					y = dim - 1 - i
+				}
+				want = append(want, [2]int64{x, y}, [2]int64{x - 1, y})
+			}
+			up = !up
+		}
+		ok, first := len(want) == len(fo.sent), -1
+		for i := 0; i < len(want) && i < len(fo.sent); i++ {
+			if want[i] != fo.sent[i] {
+				ok, first = false, i
+				break
+			}
+		}
+		found := fmt.Sprintf("%d positions in ISO order", len(fo.sent))
+		if !ok && first >= 0 {
+			found = fmt.Sprintf("position #%d is %v, ISO: %v", first, fo.sent[first], want[first])
+		} else if !ok {
+			found = fmt.Sprintf("%d positions, ISO: %d", len(fo.sent), len(want))
+		}
+		c.Check(R, fmt.Sprintf("qr.iterateModules/order/v%d", v), prod.Pos(), ok, fmt.Sprintf("%d positions in ISO order", len(want)), found)
+	}
+}
+
+func init() {
+	register("C01", ruleQRZigzag)
+}
+
+// L6: the length accessor every encoder sizes its symbol with.
+func ruleBitListLen(c *Ctx) {
+	const R = "L6-BITLIST-LEN"
+	c.Doc(R, "utils.(*BitList).Len returns the bit count (the field AddBit increments, L2), not the capacity of the word slice")
+	c.Floor(R, 1)
+	fn := c.theFunc(R, "utils.(*BitList).Len")
+	if fn == nil {
+		return
+	}
+	n := NewNormer(c.P)
+	n.BindParams(fn, "bl")
+	for i, ret := range returnsOf(fn) {
+		c.expectPoly(R, fmt.Sprintf("utils.(*BitList).Len/return#%d", i+1), ret.Pos(), n, ret.Results[0], "bl.count")
+	}
+}
+
+func init() {
+	register("C18", ruleBitListLen)
 }
